@@ -510,6 +510,106 @@ FAMILIES["cpmdot"] = {"groups": cpmdot_groups, "cases": cpmdot_cases, "run": run
 FAMILIES["tkmdot"] = {"groups": tkmdot_groups, "cases": tkmdot_cases, "run": run_mdot}
 
 
+# ------------------------------------------------------------------------------------------ family: mdotchain (HX: histories on ONE object)
+# Every sequence of mode products (mode x {1-row, (I+1)-row} matrix x copy x function/method) of length 2 (thorough: 3) applied to one
+# factorised-tensor object: each step continues on the object the previous step returned and - after a copy=False step, which updates
+# its argument in place - also on the object that was passed in.  Every intermediate object must represent the mode product of what
+# its predecessor represented (sizes change at every step, so any attribute cached at construction goes stale).
+def mdotchain_groups(tier):
+    shapes = [(2, 3), (3, 2, 2)] if tier == "quick" else [(2, 3), (3, 2, 2), (2, 2, 3), (1, 3, 2)]
+    return [{"fam": "mdotchain", "kind": k, "shape": list(s), "len": 2 if (tier == "quick" or len(s) == 3 and k == "cp") else 3}
+            for k in ("cp", "tk") for s in shapes]
+
+
+def _chain_steps(n):
+    return [(mode, op, copy, api) for mode in range(n) for op in ("mat1", "matJ") for copy in (False, True) for api in ("function", "method")]
+
+
+def mdotchain_cases(group, tier, seed):
+    n = len(group["shape"])
+    steps = _chain_steps(n)
+    for seq in itertools.product(range(len(steps)), repeat=group["len"]):
+        # follow[j] = 1: after step j (which must be a copy=False step) the caller goes on with the object it passed in
+        for follow in itertools.product((0, 1), repeat=group["len"] - 1):
+            if any(f and steps[seq[j]][2] for j, f in enumerate(follow)):
+                continue
+            yield {"fam": "mdotchain", "kind": group["kind"], "shape": group["shape"], "seq": list(seq), "follow": list(follow), "seed": seed}
+
+
+def run_mdotchain(case, ctx):
+    from tensorly.cp_tensor import CPTensor, cp_mode_dot
+    from tensorly.tucker_tensor import TuckerTensor, tucker_mode_dot
+
+    is_cp = case["kind"] == "cp"
+    site = "cp_mode_dot" if is_cp else "tucker_mode_dot"
+    shape, seed = tuple(case["shape"]), case["seed"]
+    n = len(shape)
+    steps = _chain_steps(n)
+    if is_cp:
+        f0 = [V.ints((s, 2), seed * 13 + k * 5 + 2, 2, nonzero=True) for k, s in enumerate(shape)]
+        w0 = R4.weights("mixed", 2, seed * 7 + 1)
+        o = CPTensor((w0.copy(), [f.copy() for f in f0]))
+        d = R4.cp_dense(w0, f0)
+    else:
+        ranks = tuple(min(2, s) for s in shape)
+        f0 = [V.ints((s, r), seed * 13 + k * 5 + 2, 2, nonzero=True) for k, (s, r) in enumerate(zip(shape, ranks))]
+        core0 = V.ints(ranks, seed * 3 + 4, 3)
+        o = TuckerTensor((core0.copy(), [np.array(f) for f in f0]))
+        d = R4.tucker_dense(core0, f0)
+
+    def represented(x):
+        a, facs = x
+        facs = [np.asarray(f) for f in facs]
+        return R4.cp_dense(np.asarray(a), facs) if is_cp else R4.tucker_dense(np.asarray(a), facs)
+
+    hist, how = [], "start"
+    for depth, si in enumerate(case["seq"]):
+        mode, op, copy, api = steps[si]
+        hist.append(f"{api}(mode={mode},{op},copy={copy})")
+        M = operand(op, d.shape[mode], seed * 5 + mode + depth)
+        expected = R4.mode_dot(d, M, mode)
+        ctx.evaluations += 1
+        ctx.count(f"calls:{site}:chain")
+        label = f"{'CP' if is_cp else 'Tucker'} shape={shape} history {hist} (step {depth + 1} called on the {how}); operand {M.tolist()}"
+        try:
+            with _quiet():
+                out = (cp_mode_dot if is_cp else tucker_mode_dot)(o, M.copy(), mode, copy=copy) if api == "function" else o.mode_dot(M.copy(), mode, copy=copy)
+            got = represented(out)
+        except Exception as e:
+            ctx.violation(f"{site}/chain/raises/step{depth + 1}", f"{label}: {type(e).__name__}: {e}")
+            return
+        if not (got.shape == expected.shape and np.array_equal(got, expected)):
+            ctx.violation(f"{site}/chain/factors-wrong/step{depth + 1}", f"{label}: result represents {got.tolist()}, expected {expected.tolist()}")
+            return
+        try:
+            lib = np.asarray(out.to_tensor())
+            ok = lib.shape == expected.shape and np.array_equal(lib, expected)
+        except Exception as e:
+            ok, lib = False, f"{type(e).__name__}: {e}"
+        if not ok:
+            ctx.violation(f"{site}/chain/result-to_tensor-wrong/step{depth + 1}", f"{label}: to_tensor() of the returned object gives {getattr(lib, 'tolist', lambda: lib)()}, expected {expected.tolist()}")
+            return
+        if depth < len(case["follow"]) and case["follow"][depth]:
+            # copy=False updates its argument in place: if the argument now represents the product, the caller may go on with it
+            try:
+                same = np.array_equal(represented(o), expected)
+            except Exception:
+                same = False
+            if not same or out is o:
+                ctx.outcome("mdotchain:argument-not-a-separate-updated-object")
+                ctx.count("guarded_out:mdotchain-argument-not-updated-in-place")
+                return
+            how = "argument updated in place"
+        else:
+            o, how = out, "returned object"
+        d = expected
+    ctx.nontriv()
+    ctx.outcome("mdotchain:complete-" + ("with-in-place-continuation" if any(case["follow"]) else "on-returned-objects"))
+
+
+FAMILIES["mdotchain"] = {"groups": mdotchain_groups, "cases": mdotchain_cases, "run": run_mdotchain}
+
+
 # ------------------------------------------------------------------------------------------ family: tknorm
 def tknorm_space(tier):
     if tier == "quick":
